@@ -341,3 +341,38 @@ PROPS = {
                         'at most 65535 additions per block (numAdds is a uint16 in the API)'],
     },
 }
+
+# ---------------------------------------------------------------------------------------------
+# Sparse forests with huge leaf counts (rows 32..63): families `sparse` / `sparseexh`
+# (harness/fam_sparse.go, lean/UtreexoVerif/Driver/Sparse.lean).  State-free lines: the pure
+# functions of (numLeaves, positions, hashes) are driven on fabricated consistent forests of up
+# to 2^63 leaves and compared with the same Lean models; the ground truth (`sforest`) is
+# re-hashed by the driver; `sexpect` lines carry expectations derived from the harness's own
+# (row, offset) geometry.
+SPARSE = {'name': 'sparse', 'shards': {'quick': 4, 'thorough': 16}, 'seeds': {'quick': 1, 'thorough': 2}}
+SPARSE2 = {'name': 'sparse', 'shards': {'quick': 2, 'thorough': 16}, 'seeds': {'quick': 1, 'thorough': 2}}
+SPARSEEXH = {'name': 'sparseexh', 'shards': {'quick': 6, 'thorough': 16}}
+SPARSE_RULE = ('; families sparse / sparseexh: the same calls on fabricated SPARSE forests of up to 2^63 leaves '
+               '(leaf counts 2^k, 2^k+-1, 2^k+2^j(+1), runs of ones, random 63-bit patterns, weight on k = 31, 32, 33, 62, 63, '
+               'one in eight <= 64 leaves; 1-6 targets: same / different trees, siblings, cousins, edges of a tree, the lone '
+               'row-0 root, leaves 2^31 / 2^32 apart, trees 0..62 rows apart; empty roots), built by the harness from its own '
+               '(row, offset) geometry and re-hashed by the driver')
+_SPARSE_USE = {
+    # property: (families, extra kinds)
+    'C03': ([SPARSE, SPARSEEXH], ['sverify*', 'sforest']),
+    'C04': ([SPARSE, SPARSEEXH], ['sverify*', 'sforest']),
+    'C01': ([SPARSE2, SPARSEEXH], ['stumpupdate']),
+    'C05': ([SPARSE2, SPARSEEXH], []),
+    'C11': ([SPARSE2, SPARSEEXH], []),
+    'C07': ([SPARSE, SPARSEEXH], ['sverify:afterupdate', 'sexpect:afterupdate']),
+    'C08': ([SPARSE, SPARSEEXH], ['sverify:afterundo', 'sexpect:afterundo']),
+    'C14': ([SPARSE, SPARSEEXH], ['sverify:addproof', 'sverify:subset', 'sverify:missing',
+                                  'sexpect:addproof', 'sexpect:subset*', 'sexpect:missing']),
+}
+# experiment switches: VERIF_NO_SPARSE=1 runs the properties without the sparse families,
+# VERIF_ONLY_SPARSE=1 with nothing else (used to tell which family catches a seeded change)
+for _p, (_f, _k) in ({} if _os.environ.get('VERIF_NO_SPARSE') else _SPARSE_USE).items():
+    PROPS[_p]['families'] = ([] if _os.environ.get('VERIF_ONLY_SPARSE') else PROPS[_p]['families']) + _f
+    PROPS[_p]['kinds'] = PROPS[_p]['kinds'] + [k for k in _k if k not in PROPS[_p]['kinds']]
+    PROPS[_p]['dist_kinds'] = PROPS[_p].get('dist_kinds', []) + ['dist:sparse', 'dist:sverify']
+    PROPS[_p]['rule'] = PROPS[_p]['rule'] + SPARSE_RULE
